@@ -27,7 +27,7 @@ func (t *TablesServer) Create(ctx context.Context, req *regattapb.CreateTableReq
 	}
 	table, err := t.Tables.CreateTable(req.Name)
 	if err != nil {
-		if errors.Is(err, serrors.ErrTableExists) {
+		if errors.Is(err, serrors.ErrTableExists) || errors.Is(err, serrors.ErrInvalidTableName) {
 			return nil, status.Errorf(codes.InvalidArgument, err.Error())
 		}
 		return nil, status.Errorf(codes.FailedPrecondition, err.Error())
